@@ -78,7 +78,7 @@ def flatten(tx):
 def gen_case(rng, params, idx):
     hier = gen.gen_hierarchy(rng, rng.randint(3, 6))
     names = [s["name"] for s in hier]
-    atoms = names + ["object", "int", "bool", "str", "MyInt", "HasFly", "Shape", "Hook"]
+    atoms = names + ["object", "int", "bool", "str", "MyInt", "HasFly", "HasFly2", "Hashable", "Shape", "Hook"]
     plain = names + ["object", "int", "bool", "str", "MyInt"]
     lvl1 = []
     for _ in range(14):
@@ -307,9 +307,10 @@ def check_case(spec, res):
     for a, b in itertools.permutations(classes, 2):
         res.ev()
         res.count("class_pairs_L3")
+        # classes that are (virtual) subclasses of each other are equal in the order
         exp = Order.LESS if issubclass(cobj[a], cobj[b]) and not issubclass(cobj[b], cobj[a]) else \
             Order.MORE if issubclass(cobj[b], cobj[a]) and not issubclass(cobj[a], cobj[b]) else \
-            Order.NONE if not issubclass(cobj[a], cobj[b]) else None
+            Order.NONE if not issubclass(cobj[a], cobj[b]) else Order.SAME
         got = safe(cobj[a], cobj[b])
         if exp is not None and got is not exp:
             res.violation("L3-issubclass", [a in T.Env.BUILTINS, b in T.Env.BUILTINS], spec,
